@@ -157,6 +157,8 @@ def main(argv):
         "obligation_queries": int(tot("queries")),
         "solver_time_s": round(tot("solver_time") + tot("branch_time"), 2),
         "regression_replays": reg,
+        "slowest_obligations": [{"id": r["id"], "time": r.get("time")} for r in sorted(records, key=lambda r: -(r.get("time") or 0))[:5]],
+        "query_cap_s": core.tier_timeout(tier),
         "functions_encoded": spec.get("functions", []),
         "source_hash": core.src_hash(spec.get("files", [])),
         "source_files": spec.get("files", []),
